@@ -223,7 +223,10 @@ def run_case(case: dict[str, Any]) -> dict[str, Any]:
         fa = foreign(after)
         if after_versions and after_versions[-1]['type'] == 'DELETED':
             fa = [f for f in fa if f != sv.finalizer]
-        if foreign(before) != fa and not (after_versions and after_versions[-1]['type'] == 'DELETED' and not fa):
+        if after_versions and after_versions[-1]['type'] == 'DELETED':
+            # the object could only go because NO finalizer was left: compare with what the write removed
+            fa = []
+        if foreign(before) != fa:
             viol.append({'mech': 'foreign-finalizers-changed', 'msg': f"request #{r.idx} by {r.client} changed the finalizers owned by others: {foreign(before)} -> {fa}",
                          'witness': {'request': r.brief()}})
         if isinstance(r.payload, list) and r.payload:
